@@ -111,6 +111,16 @@ CLAIMED = {
             "checked on the same path grammar.",
             "Trusted: the recording os proxy and realpath() of the host kernel as ground truth; private scratch tree per run.",
             "5 (C46)"),
+    "C31": ("simB", "seeded work-list-order simulation of recursive disassembly through a guarded seam, structural oracle from single-instruction decodes; ddmin + replay",
+            "The processing order of disasmEngine.apply_splitting's work list (a set of identity-hashed blocks, different in every process) is "
+            "put under the seeded scheduler through the guarded seam asmblock._verif_pick_block (MIASM_VERIF=1). Seeded buffers (structured "
+            "x86 programs, byte-flipped programs, random bytes for 7 architectures), start offsets and engine options; the resulting graph is "
+            "checked against invariants computed from fresh single-instruction decodes (consecutive and equal instructions, no overlap, "
+            "branch targets start blocks, successors, options honoured, merging keeps instruction-level paths) and must be identical under a "
+            "second work-list order.",
+            "Trusted: single-instruction decoding as ground truth; stated relaxations for blocks cut by limits and for delay slots; "
+            "one hook commit in /repo (add-only, guarded).",
+            "6 and 13.7 (C31)"),
     "C21": ("simA", "seeded schedule search over block partitioning / quantum / cache / restart, judged against a single-step reference; ddmin + replay",
             "Seeded sampling of (program, schedule) pairs on the real python and gcc jitters: block length, per-call limit, cache-size "
             "limit, warm start, mid-run option changes, cache clears, stop/resume and warm/cold restarts; at every control point the full "
